@@ -133,9 +133,44 @@ fn answer(line: &str) -> String {
     format!("{} {}", show_solver(&direct), passes)
 }
 
+/// Independent re-evaluation of the returned value through the public API: whenever the solver says `Ok(x)`, the
+/// target function (the polynomial, or its derivative in extrema mode) evaluated at `x` by the library itself must
+/// be a number below the gate — in particular it must not be NaN (a comparison written the other way round lets a
+/// NaN residual through).
+fn residual_verdict(line: &str, answer: &str) -> Option<Result<(), String>> {
+    let mut a = answer.split_ascii_whitespace();
+    if a.next() != Some("ok") {
+        return None;
+    }
+    let x = f64::from_bits(a.next()?.strip_prefix('f')?.parse::<u64>().ok()?);
+    let mut t = Toks::new(line);
+    t.tok();
+    let p = read_any(&mut t);
+    let (lo, init, hi) = (t.f64(), t.f64(), t.f64());
+    if !(lo.is_finite() && init.is_finite() && hi.is_finite()) {
+        return None; // outside the quantifier: only "no panic" is demanded there
+    }
+    for _ in 0..2 {
+        t.tok();
+    }
+    let extrema = t.tok() == "extrema";
+    let target = if extrema { crate::polyops::deriv_uni(&p).ok()? } else { p };
+    let g = crate::polyops::eval_uni(&target, x).ok()?;
+    Some(if g.is_nan() {
+        Err(format!("returned x = {x:?} although the target evaluates to NaN there"))
+    } else if !(g.abs() < 1e-4) {
+        Err(format!("returned x = {x:?} with |g(x)| = {:?} (evaluated by the library) not below 1e-4", g.abs()))
+    } else {
+        Ok(())
+    })
+}
+
 pub fn run(line: &str) -> Obs {
     match catch(|| answer(line)) {
-        Some(s) => Obs::plain(s),
+        Some(s) => {
+            let verdict = catch(|| residual_verdict(line, &s)).flatten();
+            Obs { obs: s, oracle: verdict }
+        }
         None => Obs::plain("panic".into()),
     }
 }
@@ -310,6 +345,44 @@ fn rooted_target(rng: &mut Rng, exact: bool) -> (Vec<f64>, Vec<f64>) {
 
 pub fn generate(seed: u64, thorough: bool, emit: &mut dyn FnMut(String)) {
     let mut rng = Rng::new(seed ^ 0xC06);
+    // targets that evaluate to NaN / inf somewhere in the bracket (fractional or negative exponents over a bracket
+    // that reaches x <= 0, brackets so wide that powers overflow, non-finite bracket ends), and iteration caps at
+    // the limits of usize on inputs that converge quickly: every outcome must still be an error value or a value
+    // that passes the residual gate
+    {
+        use spindalis_core::polynomials::structs::{IntermediatePolynomial, PolynomialTraits, SimplePolynomial};
+        let texts = ["x^1.5 - 8", "x^-1 - 2x^-2", "x^0.5 - 2", "x^1/2 - 1", "2x^-1 + 1", "x^3 - 8", "x^2 - 2", "x - 1", "x^2.5 - x", "x^-2 - 4"];
+        let brackets: [(f64, f64); 12] = [
+            (-6.0, 2.0), (-1.0, 1.0), (-4.0, 9.0), (0.0, 4.0), (-2.0, 0.0), (0.0, 1e200), (-1e200, 1e200), (1.0, 1e308),
+            (f64::NEG_INFINITY, f64::INFINITY), (0.0, f64::INFINITY), (f64::NAN, 2.0), (0.5, f64::NAN),
+        ];
+        for (ti, text) in texts.iter().enumerate() {
+            for (bi, (lo, hi)) in brackets.iter().enumerate() {
+                if !thorough && (ti + bi) % 2 == 1 {
+                    continue;
+                }
+                for simple in [false, true] {
+                    let p = if simple {
+                        match SimplePolynomial::parse(text) { Ok(q) => AnyPoly::S(q), Err(_) => continue }
+                    } else {
+                        match IntermediatePolynomial::parse(text) { Ok(q) => AnyPoly::I(q), Err(_) => continue }
+                    };
+                    let init = if lo.is_finite() && hi.is_finite() { lo + (hi - lo) * 0.3 } else if lo.is_finite() { *lo } else { 1.0 };
+                    for mode in ["root", "extrema"] {
+                        emit(format!("bisect {} {} {} {} {} {} {mode}", req_any(&p), rbits(*lo), rbits(init), rbits(*hi), rbits(1e-7), 300));
+                    }
+                }
+            }
+        }
+        for cap in [usize::MAX, usize::MAX - 1, 1usize << 32, 1usize << 63] {
+            for text in ["x^2 - 4", "x^3 - 3x^2 + 2x", "2x - 3"] {
+                let p = AnyPoly::S(SimplePolynomial::parse(text).unwrap());
+                for mode in ["root", "extrema"] {
+                    emit(format!("bisect {} {} {} {} {} {cap} {mode}", req_any(&p), rbits(0.25), rbits(1.0), rbits(3.5), rbits(1e-6)));
+                }
+            }
+        }
+    }
     let n = if thorough { 480000 } else { 12000 };
     for i in 0..n {
         let simple = rng.chance(1, 2);
